@@ -228,6 +228,30 @@ class Tracer:
         wrap_pre(LevyProcess)
         wrap_pre(CouplingMarkovChain)
 
+        # ---- coupling decisions: which draws are made inside coupling_state, and which variate is really compared
+        from rpylib.process.coupling.couplingmarkovchain import CouplingSimulation
+        orig_prob = CouplingSimulation.probability_to_right_jump
+        orig_cs = CouplingSimulation.coupling_state
+        self._orig[("CouplingSimulation", "probability_to_right_jump")] = orig_prob
+        self._orig[("CouplingSimulation", "coupling_state")] = orig_cs
+
+        def probability_to_right_jump(grid, mass, increment):
+            p = orig_prob(grid, mass, increment)
+            return Probe(p) if tr.active else p
+
+        def coupling_state(self_, increment):
+            if not tr.active:
+                return orig_cs(self_, increment)
+            tr.log(e="dec_begin")
+            try:
+                return orig_cs(self_, increment)
+            finally:
+                tr.log(e="dec_end")
+        _as_attribute(probability_to_right_jump, CouplingSimulation, "probability_to_right_jump")
+        _as_attribute(coupling_state, CouplingSimulation, "coupling_state")
+        CouplingSimulation.probability_to_right_jump = staticmethod(probability_to_right_jump)
+        CouplingSimulation.coupling_state = coupling_state
+
         from rpylib.montecarlo.statistic.statistic import MCStatistics, MLMCStatistics
         orig_add = MCStatistics.add
         orig_mladd = MLMCStatistics.add
@@ -268,6 +292,37 @@ def _as_attribute(fn, cls, name):
     fn.__name__ = name
     fn.__qualname__ = f"{cls.__qualname__}.{name}"
     fn.__module__ = cls.__module__
+
+
+class Probe:
+    """stands for the probability p in `u < p` inside coupling_state and records the variate u really compared
+    (numpy defers the comparison to the reflected operator because of __array_ufunc__ = None)"""
+
+    __array_ufunc__ = None
+
+    def __init__(self, p):
+        self.p = p
+
+    @staticmethod
+    def _u(u):
+        u = float(np.asarray(u).ravel()[0])
+        TR.log(e="use", val=u)
+        return u
+
+    def __gt__(self, u):      # u < p
+        return self._u(u) < self.p
+
+    def __ge__(self, u):      # u <= p
+        return self._u(u) <= self.p
+
+    def __lt__(self, u):      # u > p
+        return self._u(u) > self.p
+
+    def __le__(self, u):      # u >= p
+        return self._u(u) >= self.p
+
+    def __float__(self):
+        return float(self.p)
 
 
 class TaskWrap:
@@ -344,7 +399,9 @@ class Canon:
 
     events  : encoded events, exactly `map enc_ev` of the model
                 [0,s] seed | [1,py,sid,from,k] draw | [2,cid,n] new deque | [3,cid,row] pop | [4,lvl] begin | [5] end
-    samples : dicts {lvl, idx, val, pos:[(py,sid,i)...] in consumption order, rows:[(cid,row)...], sched:[(py,k)...], it}
+    samples : dicts {lvl, idx, val, pos:[(py,sid,i)...] in consumption order, rows:[(cid,row)...],
+              sched:[(py,k,decision?)...], uses:[(value, position or None)...], it}
+              [6,py,sid,i] in `events` = a coupling decision compared the variate at that position
     problems: things the abstraction relies on that the log contradicts (strings)
     hashes  : [(kind, hash-after)] for every event that changes a generator state (seed, draw with k>0)
     chunks  : sample index ranges separated by the arrival of a fresh deque copy (worker logs)"""
@@ -354,6 +411,7 @@ class Canon:
         self.rowpos: dict[tuple, list] = {}
         self.chunk_starts: list[int] = []
         self.seeds: list[int] = []
+        self.uses: list[tuple] = []          # (value compared by a coupling decision, its position or None, sample number)
 
 
 def canonical(events: list[dict], ambient: int = AMBIENT, rowpos: dict | None = None) -> Canon:
@@ -368,8 +426,31 @@ def canonical(events: list[dict], ambient: int = AMBIENT, rowpos: dict | None = 
     claimed_normal = None
     last_arrive_sample = -1
     task_it = None
+    in_dec = 0
+    valpos: dict[float, list] = {}     # value of a uniform variate -> positions at which the generator produced it
     for ev in events:
         e = ev["e"]
+        if e == "dec_begin":
+            in_dec += 1
+            continue
+        if e == "dec_end":
+            in_dec -= 1
+            continue
+        if e == "use":
+            ps = valpos.get(ev["val"], [])
+            if len(ps) != 1:
+                c.problems.append(f"coupling decision compares {ev['val']!r}, " + ("which no traced generator call of this process produced"
+                                                                                  if not ps else "produced at several positions"))
+            p = ps[0] if len(ps) == 1 else None
+            c.events.append([6, -1, -1, -1] if p is None else [6, p[0], p[1], p[2]])
+            c.uses.append((ev["val"], p, len(c.samples)))
+            if cur is not None:
+                cur["uses"].append((ev["val"], p))
+                if p is not None and p not in cur["pos"]:
+                    c.problems.append(f"coupling decision of sample {len(c.samples)} compares the variate at {p}, which was not drawn during that sample (buffered)")
+            else:
+                c.problems.append("coupling decision outside a sample")
+            continue
         if e == "seed":
             if ev["s"] is None:
                 c.problems.append("seed(None) call")
@@ -396,9 +477,12 @@ def canonical(events: list[dict], ambient: int = AMBIENT, rowpos: dict | None = 
                 if ev["hb"] == ev["ha"]:
                     c.problems.append(f"draw {ev['op']} of {k} variates left the generator state unchanged")
                 c.hashes.append(("np" if st == NP else "py", ev["ha"], "draw"))
+            if ev.get("vals") is not None and ev["op"] in ("uniform", "random_sample", "random", "ranf", "sample", "rand"):
+                for v, p_ in zip(ev["vals"], pos):
+                    valpos.setdefault(v, []).append(p_)
             if cur is not None:
                 cur["pos"].extend(pos)
-                cur["sched"].append((st, k))
+                cur["sched"].append((st, k, in_dec > 0))
             else:
                 pre.append({"op": ev["op"], "pos": pos, "vals": ev.get("vals"), "shape": ev.get("shape")})
         elif e == "new":
@@ -441,7 +525,7 @@ def canonical(events: list[dict], ambient: int = AMBIENT, rowpos: dict | None = 
             else:
                 c.problems.append("pop outside a sample")
         elif e == "begin":
-            cur = {"pos": [], "rows": [], "sched": [], "lvl": None, "idx": None, "val": None, "entry": ev.get("entry"),
+            cur = {"pos": [], "rows": [], "sched": [], "uses": [], "lvl": None, "idx": None, "val": None, "entry": ev.get("entry"),
                    "it": task_it, "evpos": len(c.events)}
             c.events.append([4, None])
             task_it = None
